@@ -88,7 +88,11 @@ def run(ctx):
     ctx.count("token_cases", len(reqs))
     # ---------------- planted faults
     fillers = ["def a1 = 1", "def b1 = [1, 2]", "3 + 2", "'text'", "def f1(x) x + 1", "if 1 == 1 then 'y' else 'n'", "for q1 in [1, 2] do q1 end",
-               "def m1 = <<<'k' => 1>>>", "[z * 2 for z in [1, 2]]", "do 1; 2 end", "<<1, 2>>", "fn(x) x", "def h2 = 0x1F", "0b11 + 0x0a", "def s3 = 'line one\nline two'", "'doc\ncomment\n\nmore' def d3(x) x", "1_000 + 2.5", "def s2 = 'two' + \"x\""]
+               "def m1 = <<<'k' => 1>>>", "[z * 2 for z in [1, 2]]", "do 1; 2 end", "<<1, 2>>", "fn(x) x", "def h2 = 0x1F", "0b11 + 0x0a", "def s3 = 'line one\nline two'", "'doc\ncomment\n\nmore' def d3(x) x", "1_000 + 2.5", "def s2 = 'two' + \"x\"",
+               # string literals that END in a line break, consist only of line breaks, or hold the other characters some hosts take for line
+               # boundaries (form feed, vertical tab, NEL, FS / GS / RS, LS / PS): only LF counts as a line break
+               "def s4 = 'ends with a break\n'", "def s5 = '\n\n'", "'doc ending in a break\n' def d4(x) x", "def s6 = 'form\x0cfeed and\x0bvt'",
+               "def s7 = 'ls\u2028ps\u2029nel\x85fs\x1cgs\x1drs\x1e'", "def s8 = '\r\n'", "def s9 = 'cr only\r'"]
     faults = [
         (["undefined_name"], 0, 'rt'), (["1", "/", "0"], 1, 'rt'), (["error", "'boom'"], 0, 'rt'), (["not", "5"], 0, 'rt'),
         (["[", "1", "]", "[", "7", "]"], 3, 'rt'), (["zz", "=", "1"], 0, 'rt'), (["if", "3", "then", "1"], 0, 'rt'),
